@@ -85,7 +85,9 @@ func (e *Env) NewModule(symbol string) (*Env, error) {
 
 // SetExternalLookup sets an external lookup
 func (e *Env) SetExternalLookup(externalLookup ExternalLookup) {
+	e.rwMutex.Lock()
 	e.externalLookup = externalLookup
+	e.rwMutex.Unlock()
 }
 
 // String returns string of values and types in current scope.
